@@ -82,4 +82,13 @@ def run(ctx):
     ]
 
 
-# MUTANTS: see bottom after runs
+# MUTANTS (scratch worktree /tmp/wt-c32, `VERIF_REPO=/tmp/wt-c32 ./check C32`, quick tier; all in
+# src/json/simple_light.rs; every one exit 1 with a VIOLATION line):
+#  m1 find_close: `bp_pos = struct_idx * 2` -> `* 2 + 1`                  CAUGHT  (q close a=0 r=7)
+#  m2 find_string_end: `b'\\' => i += 2` -> `i += 1` (escaped quote ends) CAUGHT  (q skip at a string with \")
+#  m3 ib_rank1: `bit_idx > 0` -> `bit_idx > 1` (bit 0 of the word missed)  CAUGHT  (q idx a=3969)
+#  m4 find_close: `close_bp_pos / 2` -> `(close_bp_pos + 1) / 2`           CAUGHT  (q close a=0 r=-1)
+#  m5 find_number_end: `b'E'` removed from the number bytes               CAUGHT  (q skip at 1E5-style number)
+#  m6 structural_index: IB test skipped when bit_idx == 63                CAUGHT  (q idx a=63 r=14, a non-structural)
+# (a seventh, BP `01` -> `10` for delimiters in the AVX2 simple builder, does not change any
+#  SimpleJsonIndex answer -- both are excess-neutral -- and is caught by C05 instead.)
